@@ -91,6 +91,9 @@ def mock_runs(ctx):
                 limits += [total] + [total // d for d in divs] + [7 if total < 20000 else 4096, rng.choice([total - 1, total + 1, 4096, 65536])]
                 if total < 3000:
                     limits.append(1)
+                # limits that fall exactly between two blocks read from gpg (blocks start at 16 + k*8192 or at k*8192,
+                # depending on how the first read of gpg's output went): the open body is exactly full when more arrives
+                limits += [l for l in (16, 8192, 8208, 16384, 16400) if l < total and (l > 16 or total < 20000)]
             for mx in limits:
                 chunked = rng.random() < 0.5
                 o = first if mx is None and not chunked else core.run_lines(
@@ -203,6 +206,9 @@ def e2e(ctx):
         for k in range(1 if ctx.tier == 'quick' else 3):
             plans.append((prov, PASSPHRASES[(pi * 2 + k) % len(PASSPHRASES)], None))
     plans.append(('dropbox', PASSPHRASES[3], 'divisor'))
+    # the archiver fails part-way through a backup's data file: whatever then exists under a final name must still be
+    # the whole backup
+    plans += [(prov, PASSPHRASES[1], 'readfault') for prov in (uc.PROVIDERS if ctx.tier == 'thorough' else ['yandex'])]
     if ctx.tier == 'thorough':
         plans.append(('dropbox', 'big', 'big'))
     for idx, (prov, pp, special) in enumerate(plans):
@@ -210,7 +216,7 @@ def e2e(ctx):
         e = uc.E2E(ctx, 600 + idx, prov, pp, nbackups=2, file_sizes=(10, 5000))
         try:
             with open(os.path.join(e.w.items[0], 'noise'), 'wb') as f:
-                f.write(random.Random(idx).randbytes(big or 40000))
+                f.write(random.Random(idx).randbytes(big or (700000 if special == 'readfault' else 40000)))
             r = e.w.backup(advance=9)
             assert r.rc == 0
             e.backups.append((store.group_name(e.w.now), store.backup_name(e.w.now)))
@@ -229,9 +235,24 @@ def e2e(ctx):
                 e.stage.emu.reload()
                 if os.path.exists(log):
                     os.unlink(log)
-            o = e.upload(env=env, max_request_size=mx, timeout=900)
+            shim_env, args = None, []
+            if special == 'readfault':
+                g, b = e.backups[-1]
+                shim_env = {'FAULT': 'read@%s=EIO@%d' % (os.path.join(e.w.root, g, b, 'data.tar.zst'), 2), 'WATCH': os.path.join(e.w.root, g, b)}
+                args = ['--skip-verify']
+            o = e.upload(env=env, max_request_size=mx, timeout=900, shim_env=shim_env, args=args)
             case = {'kind': 'e2e', 'provider': prov, 'passphrase': pp, 'special': special, 'max_request_size': mx}
             stats['uploads'] += 1
+            if special == 'readfault':
+                stats['archiver_fault_runs'] = stats.get('archiver_fault_runs', 0) + 1
+                if not o['run'].errors():
+                    ctx.violation('runtime', 'the injected read fault did not fire', {'case': case}, found_input=False)
+                for g, b in e.backups:
+                    rel = '%s/%s.tar.gpg' % (g, b)
+                    if rel in o['cloud']:
+                        for p in decode_object(e.home, e.cloud_blob(rel), pp, b, os.path.join(e.w.root, g, b)):
+                            ctx.violation('property', p + ' [%s, after a read error in the archiver]' % prov, {'case': case, 'errors': o['run'].errors()[:3]})
+                continue
             if o['run'].rc != 0 or o['run'].errors():
                 ctx.violation('property', 'vsb upload failed without any fault [%s]: %s' % (prov, o['run'].errors()[:3]), {'case': case})
                 continue
